@@ -77,12 +77,13 @@ def run(ctx):
     par = sc.parents
     Gp, p_param, root = ae.params[1], ae.params[2], ae.params[3]
 
-    # which methods store into which cache
+    # which methods store into which cache (the two known caches plus any other dict attribute used as one)
     writers = {}
     for m in ci.methods.values():
         for n in astx.walk_fn(m.node):
-            if isinstance(n, ast.Assign) and isinstance(n.targets[0], ast.Subscript) and astx.self_attr(n.targets[0].value) in CACHES:
+            if isinstance(n, ast.Assign) and isinstance(n.targets[0], ast.Subscript) and astx.self_attr(n.targets[0].value) is not None:
                 writers.setdefault(astx.self_attr(n.targets[0].value), []).append((m, n))
+    ALL_CACHES = tuple(CACHES) + tuple(k for k in writers if k not in CACHES)
 
     with ctx.obligation("C15.1", "caches are structure-only: phi and the u values cannot flow into a cached value or key", floor=3) as o:
         # tainted locals of automated_equation
@@ -102,7 +103,7 @@ def run(ctx):
                     if astx.names_in(v) & tainted or _u_reads(v) or any(isinstance(x, ast.Call) and txt(x.func) == "self.get_us" for x in ast.walk(v)):
                         tainted.add(tg)
                         changed = True
-        for cache in CACHES:
+        for cache in ALL_CACHES:
             ws = writers.get(cache, [])
             if not ws:
                 o.undecided(f"no store into self.{cache} found", ae)
@@ -148,6 +149,24 @@ def run(ctx):
                         d = msc.single_def(nm, allow_mutated=True)
                 if not bad:
                     o.holds(m, st, f"self.{cache}[key] is computed from the graph structure only ({len(reach)} function(s) scanned, no read of 'u', no phi argument)")
+        # (c) a cached VALUE must not be the motif graph, a copy or a view of it: graph objects carry the caller's 'u' attributes
+        for cache in list(writers):
+            for m, st in writers[cache]:
+                msc = Scope(m.node)
+                v = msc.resolve(st.value, allow_mutated=True)
+                gparams = [q for q in m.params[1:] if q.lower() in ("g", "h", "graph", "motif")]
+                for x in ast.walk(v):
+                    carries = False
+                    if isinstance(x, ast.Call) and isinstance(x.func, ast.Attribute) and x.func.attr in ("subgraph", "copy", "edge_subgraph", "to_undirected") \
+                            and astx.root_name(x.func.value) in gparams:
+                        carries = True
+                    if isinstance(x, ast.Call) and txt(x.func) in ("nx.Graph", "networkx.Graph", "nx.subgraph", "nx.induced_subgraph") and x.args and astx.root_name(x.args[0]) in gparams:
+                        carries = True
+                    if carries:
+                        o.violated(m, st, f"self.{cache} stores `{txt(x)[:60]}`, a graph object derived from the motif graph: it carries (or, as a view, aliases) the 'u' values of the "
+                                          "call that filled the entry, so later evaluations of the same named motif read stale u")
+                if isinstance(v, ast.Name) and v.id in gparams:
+                    o.violated(m, st, f"self.{cache} stores the motif graph itself")
         # positive control: get_us does read 'u' (the rule can see such reads)
         if not _u_reads(gus.node):
             o.undecided("positive control failed: no read of the 'u' attribute found in get_us", gus)
